@@ -7,10 +7,35 @@ package seqx
 type Chooser struct {
 	prefix []int
 	opt    *Options
-	Trail  []int // choices taken so far
-	Widths []int // number of alternatives at each point
+	Trail  []int  // choices taken so far
+	Widths []int  // number of alternatives at each point
 	Free   []bool // choice points whose alternatives do not count as deviations
-	Dev    int   // number of non-default choices taken so far
+	Dev    int    // number of non-default choices taken so far
+	// Diverged is set when a replayed choice does not exist this time: the execution did not
+	// repeat the prefix faithfully (a source of nondeterminism the harness does not own). The
+	// harness must stop judging; Explore retries and, failing that, reports the prefix.
+	Diverged bool
+	tolerant bool
+	Labels   []string // what the harness saw at each choice point (ChooseL)
+	expect   []string // labels of the run this one replays a prefix of
+}
+
+// ChooseL is Choose with a fingerprint of the choice point (e.g. the list of pending requests).
+// When the replayed part of an execution shows a different fingerprint than the run it was
+// derived from, the replay is not faithful and Diverged is set.
+func (c *Chooser) ChooseL(n int, label string) int {
+	i := len(c.Trail)
+	if i < len(c.expect) && c.expect[i] != label {
+		if !c.tolerant {
+			panic("seqx: replayed choice point differs: " + c.expect[i] + " vs " + label)
+		}
+		c.Diverged = true
+	}
+	for len(c.Labels) < i {
+		c.Labels = append(c.Labels, "")
+	}
+	c.Labels = append(c.Labels, label)
+	return c.choose(n, false)
 }
 
 // NewReplay returns a chooser that replays the given trail (for --replay).
@@ -33,7 +58,11 @@ func (c *Chooser) choose(n int, free bool) int {
 	if i < len(c.prefix) {
 		v = c.prefix[i]
 		if v >= n {
-			panic("seqx: replayed choice out of range: the execution is not deterministic")
+			if !c.tolerant {
+				panic("seqx: replayed choice out of range: the execution is not deterministic")
+			}
+			c.Diverged = true
+			v = 0
 		}
 	}
 	if v != 0 && !free {
@@ -65,6 +94,9 @@ type Options struct {
 	ShardDepth int
 	Mine       func(prefix []int) bool
 	Stop       func() bool // checked between executions; true ends the exploration early
+	// OnDiverge, when set, makes replay divergence non-fatal: the execution is retried up to four
+	// times; if it still diverges the prefix is reported here and its subtree is skipped.
+	OnDiverge func(prefix []int)
 }
 
 // Explore runs `run` once for every path of the choice tree (within the deviation bound).
@@ -74,17 +106,39 @@ func Explore(opt Options, run func(c *Chooser)) (int, bool) {
 	prefix := []int{}
 	var trail, widths []int
 	var free []bool
+	var labels []string
 	for {
 		skip := opt.Mine != nil && opt.ShardDepth > 0 && len(prefix) >= opt.ShardDepth && !opt.Mine(prefix[:opt.ShardDepth])
 		if !skip {
-			c := &Chooser{prefix: prefix, opt: &opt}
-			run(c)
-			n++
-			trail, widths, free = c.Trail, c.Widths, c.Free
-			if len(trail) < len(prefix) {
-				panic("seqx: execution ended before its replay prefix was consumed: not deterministic")
+			var c *Chooser
+			for attempt := 0; attempt < 5; attempt++ {
+				c = &Chooser{prefix: prefix, opt: &opt, tolerant: opt.OnDiverge != nil}
+				if len(labels) >= len(prefix) {
+					c.expect = labels[:len(prefix)]
+				}
+				run(c)
+				if len(c.Trail) < len(prefix) {
+					c.Diverged = true
+				}
+				if !c.Diverged {
+					break
+				}
 			}
-		} else {
+			n++
+			if c.Diverged {
+				if opt.OnDiverge == nil {
+					panic("seqx: execution ended before its replay prefix was consumed: not deterministic")
+				}
+				opt.OnDiverge(prefix)
+				skip = true
+			} else {
+				trail, widths, free, labels = c.Trail, c.Widths, c.Free, c.Labels
+			}
+		}
+		if skip {
+			if len(labels) > len(prefix) {
+				labels = labels[:len(prefix)]
+			}
 			// prefix = previous trail[:k] + [v+1]; the widths up to k are those of the previous run
 			widths = widths[:len(prefix)]
 			free = free[:len(prefix)]
